@@ -100,15 +100,23 @@ Proof.
   rewrite forallb_forall in H. intros c Hc. apply H in Hc. lia.
 Qed.
 
-(* the factory's maps hold exactly the registered pairs *)
-Lemma forward_keys : map fst (fa_forward node_activators) = registered_codes.
-Proof. vm_compute. reflexivity. Qed.
-Lemma inverse_keys : map fst (fa_inverse node_activators) = registered_names.
-Proof. vm_compute. reflexivity. Qed.
-Lemma activators_keys : map fst (fa_activators node_activators) = map fst act_codes.
-Proof. vm_compute. reflexivity. Qed.
-Lemma module_activators_keys : map fst (fa_module_activators node_activators) = map fst act_module_codes.
-Proof. vm_compute. reflexivity. Qed.
+(* the factory's maps hold exactly the registered keys (as sets: the order of the Register calls is irrelevant) *)
+Lemma incl_by_compute {A} (eqb : A -> A -> bool) (H : forall a b, eqb a b = true <-> a = b) :
+  forall l1 l2, forallb (fun x => existsb (eqb x) l2) l1 = true -> forall x, In x l1 -> In x l2.
+Proof.
+  intros l1 l2 E x Hx. rewrite forallb_forall in E. apply E in Hx.
+  apply existsb_exists in Hx. destruct Hx as (y & Hy & Exy). apply H in Exy. now subst.
+Qed.
+
+Lemma forward_keys : forall c, In c (map fst (fa_forward node_activators)) <-> In c registered_codes.
+Proof. split; apply (incl_by_compute Z.eqb Zeqb_spec); vm_compute; reflexivity. Qed.
+Lemma inverse_keys : forall n, In n (map fst (fa_inverse node_activators)) <-> In n registered_names.
+Proof. split; apply (incl_by_compute String.eqb Seqb_spec); vm_compute; reflexivity. Qed.
+Lemma activators_keys : forall c, In c (map fst (fa_activators node_activators)) <-> In c (map fst act_codes).
+Proof. split; apply (incl_by_compute Z.eqb Zeqb_spec); vm_compute; reflexivity. Qed.
+Lemma module_activators_keys :
+  forall c, In c (map fst (fa_module_activators node_activators)) <-> In c (map fst act_module_codes).
+Proof. split; apply (incl_by_compute Z.eqb Zeqb_spec); vm_compute; reflexivity. Qed.
 
 (* ---------- the bijection ---------- *)
 Lemma name_of_type_of : forall n c,
@@ -148,28 +156,28 @@ Lemma registered_code_has_name : forall c, In c registered_codes ->
     exists n, activation_name_from_type node_activators c = Ok n /\ In n registered_names.
 Proof.
   intros c Hc. unfold activation_name_from_type.
-  rewrite <- forward_keys in Hc.
+  apply (proj2 (forward_keys c)) in Hc.
   destruct (map_get_in_keys Z.eqb Zeqb_spec _ _ Hc) as [n Hn]. rewrite Hn.
   exists n. split; [reflexivity|].
   assert (T : activation_type_from_name node_activators n = Ok c)
     by (apply type_of_name_of; unfold activation_name_from_type; now rewrite Hn).
   unfold activation_type_from_name in T.
   destruct (map_get String.eqb (fa_inverse node_activators) n) eqn:E; [|discriminate].
-  rewrite <- inverse_keys. eapply map_get_some_in_keys; eauto. exact Seqb_spec.
+  apply (proj1 (inverse_keys n)). eapply map_get_some_in_keys; eauto. exact Seqb_spec.
 Qed.
 
 Lemma registered_name_has_code : forall n, In n registered_names ->
     exists c, activation_type_from_name node_activators n = Ok c /\ In c registered_codes.
 Proof.
   intros n Hn. unfold activation_type_from_name.
-  rewrite <- inverse_keys in Hn.
+  apply (proj2 (inverse_keys n)) in Hn.
   destruct (map_get_in_keys String.eqb Seqb_spec _ _ Hn) as [c Hc]. rewrite Hc.
   exists c. split; [reflexivity|].
   assert (T : activation_name_from_type node_activators c = Ok n)
     by (apply name_of_type_of; unfold activation_type_from_name; now rewrite Hc).
   unfold activation_name_from_type in T.
   destruct (map_get Z.eqb (fa_forward node_activators) c) eqn:E; [|discriminate].
-  rewrite <- forward_keys. eapply map_get_some_in_keys; eauto. exact Zeqb_spec.
+  apply (proj1 (forward_keys c)). eapply map_get_some_in_keys; eauto. exact Zeqb_spec.
 Qed.
 
 (* ... and anything else is an error, from every lookup *)
@@ -180,12 +188,12 @@ Lemma unknown_code_errors : forall c, ~ In c registered_codes ->
 Proof.
   intros c Hc. repeat split.
   - unfold activation_name_from_type. rewrite (map_get_none Z.eqb Zeqb_spec); [reflexivity|].
-    now rewrite forward_keys.
+    intros H. apply Hc. now apply (proj1 (forward_keys c)).
   - intros x. unfold activate_by_type. rewrite (map_get_none Z.eqb Zeqb_spec); [reflexivity|].
-    rewrite activators_keys. intros H. apply Hc. unfold registered_codes, registered.
+    intros H. apply (proj1 (activators_keys c)) in H. apply Hc. unfold registered_codes, registered.
     rewrite map_app. apply in_or_app. now left.
   - intros l. unfold activate_module_by_type. rewrite (map_get_none Z.eqb Zeqb_spec); [reflexivity|].
-    rewrite module_activators_keys. intros H. apply Hc. unfold registered_codes, registered.
+    intros H. apply (proj1 (module_activators_keys c)) in H. apply Hc. unfold registered_codes, registered.
     rewrite map_app. apply in_or_app. now right.
 Qed.
 
@@ -193,7 +201,7 @@ Lemma unknown_name_errors : forall n, ~ In n registered_names ->
     activation_type_from_name node_activators n = GoErr err_unsupported_name.
 Proof.
   intros n Hn. unfold activation_type_from_name.
-  rewrite (map_get_none String.eqb Seqb_spec); [reflexivity|]. now rewrite inverse_keys.
+  rewrite (map_get_none String.eqb Seqb_spec); [reflexivity|]. intros H. apply Hn. now apply (proj1 (inverse_keys n)).
 Qed.
 
 (* ---------- scalar and module tables are disjoint ---------- *)
@@ -224,7 +232,7 @@ Proof.
       destruct (scalar_by_name s); [reflexivity|discriminate]. }
     rewrite forallb_forall in A. now apply A.
   - unfold activate_module_by_type. rewrite (map_get_none Z.eqb Zeqb_spec); [reflexivity|].
-    rewrite module_activators_keys. intros H. exact (scalar_module_disjoint c Hc H).
+    intros H. apply (proj1 (module_activators_keys c)) in H. exact (scalar_module_disjoint c Hc H).
 Qed.
 
 Lemma module_code_kind : forall c x l, In c (map fst act_module_codes) ->
@@ -240,7 +248,7 @@ Proof.
     destruct (map_get Z.eqb (fa_module_activators node_activators) c); [|discriminate].
     destruct (module_by_name s); [reflexivity|discriminate].
   - unfold activate_by_type. rewrite (map_get_none Z.eqb Zeqb_spec); [reflexivity|].
-    rewrite activators_keys. intros H. exact (scalar_module_disjoint c H Hc).
+    intros H. apply (proj1 (activators_keys c)) in H. exact (scalar_module_disjoint c H Hc).
 Qed.
 
 (* ---------- bindings and names are the expected ones ---------- *)
